@@ -277,20 +277,21 @@ fn judge(c: &Case, text: &str) -> Option<(String, String)> {
         }
         s
     };
-    let wp = want_derives(bit(c.pm, 0), bit(c.pm, 1), bit(c.pm, 2));
-    if set(&p.derives) != wp || p.derives.len() != wp.len() {
-        problems.borrow_mut().push(("derives_differ".into(), format!("P: expected {wp:?} emitted {:?}", p.derives)));
-    }
-    let wt = want_derives(bit(c.tm, 0), bit(c.tm, 1), false);
-    if set(&t.derives) != wt || t.derives.len() != wt.len() {
-        problems.borrow_mut().push(("derives_differ".into(), format!("T: expected {wt:?} emitted {:?}", t.derives)));
-    }
-    let mut we = want_derives(bit(c.em, 0), bit(c.em, 1), bit(c.em, 2));
-    for fixed in ["PartialEq", "Eq", "PartialOrd", "Ord", "Debug"] {
-        we.insert(fixed.to_string());
-    }
-    if set(&e.derives) != we || e.derives.len() != we.len() {
-        problems.borrow_mut().push(("derives_differ".into(), format!("E: expected {we:?} emitted {:?}", e.derives)));
+    // only the derives that the markers govern are compared: the generator may add others of its own
+    // (Debug, PartialEq, Hash, ...), and each governed one appears at most once
+    let governed = |d: &[String]| -> (std::collections::BTreeSet<String>, usize) {
+        let g: Vec<String> = d.iter().filter(|x| matches!(x.as_str(), "Copy" | "Clone" | "Default")).cloned().collect();
+        (g.iter().cloned().collect(), g.len())
+    };
+    for (name, derives, want) in [
+        ("P", &p.derives, want_derives(bit(c.pm, 0), bit(c.pm, 1), bit(c.pm, 2))),
+        ("T", &t.derives, want_derives(bit(c.tm, 0), bit(c.tm, 1), false)),
+        ("E", &e.derives, want_derives(bit(c.em, 0), bit(c.em, 1), bit(c.em, 2))),
+    ] {
+        let (got, n) = governed(derives);
+        if got != want || n != want.len() {
+            problems.borrow_mut().push(("derives_differ".into(), format!("{name}: expected {want:?} among the emitted derives {derives:?}")));
+        }
     }
     // representation
     for (s, packed) in [(p, bit(c.pm, 3)), (t, bit(c.tm, 2))] {
